@@ -81,6 +81,13 @@ def measure(job):
             rhs = np.vdot(W.H(cc), x)
             ev.append(("adjoint", abs(lhs - rhs) / max(abs(lhs), np.linalg.norm(cc) * nx * 1e-3), "<fwt x, c> vs <x, iwt c>"))
             ev.append(("purity", 0.0 if np.array_equal(x, x0) else 1.0, "fwt modified its input"))
+            for lab, xv in core.layouts(x):
+                xv0 = xv.copy()
+                yv = sp.fwt(xv, wave_name=c["wave"], axes=axes, level=level)
+                ev.append(("reconstruct", np.linalg.norm(yv - y) / max(np.linalg.norm(y), 1e-300) if yv.shape == y.shape else 1.0, "fwt of %s input vs the same values in C order" % lab))
+                ev.append(("purity", 0.0 if np.array_equal(xv, xv0) else 1.0, "fwt modified its %s input" % lab))
+                xb = sp.iwt(np.asfortranarray(y) if lab.startswith("F") else y, list(shape), W.coeff_slices if hasattr(W, "coeff_slices") else sp.wavelet.get_wavelet_shape(shape, c["wave"], axes, level)[1], wave_name=c["wave"], axes=axes, level=level)
+                ev.append(("reconstruct", np.linalg.norm(xb - x) / nx if tuple(xb.shape) == tuple(shape) else 1.0, "iwt of %s coefficients vs x" % lab))
             if not cplx and np.iscomplexobj(y):
                 ev.append(("dtype", 1.0, "real input gave complex coefficients"))
         ev.append(("adjoint_shapes", 0.0 if (list(W.H.ishape) == list(W.oshape) and list(W.H.oshape) == list(W.ishape)) else 1.0, "Wavelet.H shapes"))
